@@ -481,11 +481,16 @@ def run(ctx):
         body = hirq.body_of(f)
         for n in hirq.find(body, "if"):
             c = hirq.strip(n["c"])
+            negated = False
+            if c and c.get("k") == "un" and c.get("op") == "Not":
+                negated, c = True, hirq.strip(c["e"])
             if not (c and c.get("k") == "field" and c.get("name") == "skip_errors"):
                 continue
-            then_try = [x for x in hirq.find(n["then"], "try")]
-            then_ret = [x for x in hirq.find(n["then"], "ret")]
-            else_try = [x for x in hirq.find(n.get("else") or {}, "try")]
+            # (the arm taken when skip_errors is true / false, whichever way round the test is spelled)
+            arm_true, arm_false = (n.get("else") or {}, n["then"]) if negated else (n["then"], n.get("else") or {})
+            then_try = [x for x in hirq.find(arm_true, "try")]
+            then_ret = [x for x in hirq.find(arm_true, "ret")]
+            else_try = [x for x in hirq.find(arm_false, "try")]
             key = "%s|skip_errors" % f.path
             where = "%s:%d" % (f.file, n["ln"])
             if then_try or then_ret:
